@@ -10,6 +10,7 @@ import (
 	"os/exec"
 	"path/filepath"
 	"strconv"
+	"strings"
 	"syscall"
 	"time"
 )
@@ -119,8 +120,17 @@ func (c Config) args(port, adminPort int) []string {
 
 // Start launches one gateway process on cfg's storage and waits until it accepts connections.
 func Start(cfg Config) (*Gateway, error) {
-	g := &Gateway{Cfg: cfg, Port: FreePort(), AdminPort: FreePort(), Log: &bytes.Buffer{}}
-	return g, g.launch()
+	var g *Gateway
+	var err error
+	// the ports are picked before the gateway binds them: retry when somebody else took one
+	for try := 0; try < 6; try++ {
+		g = &Gateway{Cfg: cfg, Port: FreePort(), AdminPort: FreePort(), Log: &bytes.Buffer{}}
+		err = g.launch()
+		if err == nil || !strings.Contains(err.Error(), "address already in use") {
+			return g, err
+		}
+	}
+	return g, err
 }
 
 func (g *Gateway) launch() error {
@@ -199,5 +209,14 @@ func (g *Gateway) Kill() {
 // Restart kills the process and starts a fresh one on the same storage and ports.
 func (g *Gateway) Restart() error {
 	g.Kill()
-	return g.launch()
+	var err error
+	for try := 0; try < 6; try++ {
+		g.Log.Reset()
+		err = g.launch()
+		if err == nil || !strings.Contains(err.Error(), "address already in use") {
+			return err
+		}
+		time.Sleep(50 * time.Millisecond) // the old socket may still be closing
+	}
+	return err
 }
